@@ -4,18 +4,21 @@
    update(): three insertion cases (batch >= window; fits in the rest; wraps around).
    compute(): "the tail inputs[:, next_inserted:] is all zeros => the window is unfilled, read
    [:next_inserted]" heuristic and .squeeze() of the (num_tasks, k) slices -- modelled as they are.
-   merge_state(): pools the windows AND enlarges max_num_samples (the only class that does). *)
+   merge_state(): pools the windows AND enlarges max_num_samples (the only class that does).
+   The AUROC kernel is the one of Models/Curves.v (_binary_auroc_compute_jit, proved equal to the
+   pairwise definition in Proofs/CurvesP.v): samples are (score on an integer grid, label, weight);
+   the harness feeds score/aDen to torch. *)
 From Coq Require Import ZArith List Bool QArith Qcanon String Arith.
-From TE Require Import Base.Val Base.Xq Algebra.Metric Algebra.Pool Models.Window.
+From TE Require Import Base.Val Base.Xq Algebra.Metric Algebra.Pool Models.Curves Models.Window.
 Import ListNotations.
 Open Scope list_scope.
 Open Scope Qc_scope.
 
-Record smp := { s_x : Qc; s_y : Qc; s_w : Qc }.           (* score, target, weight *)
-Definition smpz : smp := {| s_x := 0; s_y := 0; s_w := 0 |}.
+Definition smp := sample.                                     (* Curves.sample: score (grid), label, weight *)
+Definition smpz : smp := (0%Z, (false, 0)).                  (* a zero-filled slot *)
 Definition col := list smp.                                  (* one sample per task *)
 
-Record acfg := { aT : nat; aN : nat }.
+Record acfg := { aT : nat; aN : nat; aDen : positive }.
 Record ast := { a_buf : list col; a_cur : nat; a_tot : nat; a_max : nat }.
 
 Definition azcol (c : acfg) : col := repeat smpz (aT c).
@@ -52,42 +55,10 @@ Definition aupd (c : acfg) (s : ast) (b : list col) : ast :=
             a_cur := Nat.modulo (k - rest) N; a_tot := a_tot s + k; a_max := N |}.
 
 (* ---- _binary_auroc_compute_jit on one row ---- *)
-Fixpoint ins_desc (s : smp) (l : list smp) : list smp :=
-  match l with
-  | [] => [s]
-  | y :: r => if qlt (s_x y) (s_x s) then s :: l else y :: ins_desc s r     (* stable, descending *)
-  end.
-Definition sort_desc (l : list smp) : list smp := fold_right ins_desc [] (rev l) .
-(* cumulative (fp, tp) at the end of every group of equal scores *)
-Fixpoint group_ends (l : list smp) (fp tp : Qc) : list (Qc * Qc) :=
-  match l with
-  | [] => []
-  | s :: r =>
-      let tp' := tp + s_w s * s_y s in
-      let fp' := fp + s_w s * (1 - s_y s) in
-      match r with
-      | [] => [(fp', tp')]
-      | s2 :: _ => if qeq (s_x s) (s_x s2) then group_ends r fp' tp' else (fp', tp') :: group_ends r fp' tp'
-      end
-  end.
-Definition half : Qc := Q2Qc (1 # 2).
-Fixpoint trapz (pts : list (Qc * Qc)) : Qc :=
-  match pts with
-  | p :: ((q :: _) as r) => (fst q - fst p) * (snd p + snd q) * half + trapz r
-  | _ => 0
-  end.
-Definition auroc_row (l : list smp) : Qc :=
-  let g := group_ends (sort_desc l) 0 0 in
-  (* masked_scatter_ into a zero tensor, right-aligned: leading (0,0) points *)
-  let pts := repeat (0, 0) (List.length l - List.length g) ++ g in
-  let lastp := last pts (0, 0) in
-  let factor := snd lastp * fst lastp in
-  if qeq factor 0 then half else trapz pts / factor.
-
 Inductive aout := AErr | AScalar (x : Qc) | AVec (l : list Qc).
 
 Definition zero_scores (cols : list col) : bool :=
-  forallb (fun cl => forallb (fun s => qeq (s_x s) 0) cl) cols.
+  forallb (fun cl => forallb (fun s => (sc s =? 0)%Z) cl) cols.
 (* the slots compute() reads *)
 Definition aread (s : ast) : list col :=
   if zero_scores (skipn (a_cur s) (a_buf s)) then firstn (a_cur s) (a_buf s) else a_buf s.
@@ -100,9 +71,9 @@ Definition acmp (c : acfg) (s : ast) : aout :=
   match List.length used, aT c with
   | O, _ => AErr                                            (* empty slice: TorchScript error *)
   | S O, S O => AErr                                        (* (1,1).squeeze() is 0-dim: TorchScript error *)
-  | S O, _ => AScalar (auroc_row (nth 0 used []))           (* (T,1).squeeze() = (T,): tasks read as samples *)
-  | _, S O => AScalar (auroc_row (nth 0 rows []))           (* (1,k).squeeze() = (k,) *)
-  | _, _ => AVec (map auroc_row rows)
+  | S O, _ => AScalar (auroc_row (nth 0 used []))           (* (T,1).squeeze() = (T,): tasks read as samples; 1-D kernel *)
+  | _, S O => AScalar (auroc_row (nth 0 rows []))           (* (1,k).squeeze() = (k,): 1-D kernel *)
+  | _, _ => AVec (auroc_kernel rows)                        (* 2-D kernel (flattened masked_scatter_) *)
   end.
 
 Definition afilled (m : ast) : list col := firstn (Nat.min (a_tot m) (a_max m)) (a_buf m).
@@ -133,17 +104,18 @@ Definition wauroc (fixed : variant) : Metric :=
 (* ---- codec ---- *)
 Definition dec_acfg (v : val) : option acfg :=
   match v with
-  | VL [t; n] => match as_nat t, as_nat n with Some t, Some n => Some {| aT := t; aN := n |} | _, _ => None end
+  | VL [t; n; VZ (Zpos d)] =>
+      match as_nat t, as_nat n with Some t, Some n => Some {| aT := t; aN := n; aDen := d |} | _, _ => None end
   | _ => None end.
 (* batch on the wire: rows of inputs / targets / weights, one row per task *)
-Definition cols_of (c : acfg) (x y w : list (list Qc)) : list col :=
-  map (fun i => map (fun t => {| s_x := nth i (row t x) 0; s_y := nth i (row t y) 0; s_w := nth i (row t w) 0 |})
+Definition cols_of (c : acfg) (x : list (list Z)) (y : list (list bool)) (w : list (list Qc)) : list col :=
+  map (fun i => map (fun t => (nth i (nth t x []) 0%Z, (nth i (nth t y []) false, nth i (row t w) 0)))
                   (seq 0 (aT c)))
-      (seq 0 (List.length (row 0 x))).
+      (seq 0 (List.length (nth 0 x []))).
 Definition dec_ab (c : acfg) (v : val) : option (list col) :=
   match v with
   | VL [x; y; w] =>
-      match dec_rows x, dec_rows y, dec_rows w with
+      match as_list (as_list as_Z) x, as_list (as_list as_B) y, dec_rows w with
       | Some x, Some y, Some w => Some (cols_of c x y w)
       | _, _, _ => None end
   | _ => None end.
@@ -151,7 +123,8 @@ Definition amat (f : smp -> Qc) (c : acfg) (buf : list col) : val :=
   VL (map (fun t => vlistQ (map (fun cl => f (nth t cl smpz)) buf)) (seq 0 (aT c))).
 (* inputs max_num_samples targets total_samples weights ; + next_inserted *)
 Definition a_enc_st (c : acfg) (s : ast) : val :=
-  VL [amat s_x c (a_buf s); vnat (a_max s); amat s_y c (a_buf s); vnat (a_tot s); amat s_w c (a_buf s);
+  VL [amat (fun x => mkq (sc x) (aDen c)) c (a_buf s); vnat (a_max s);
+      amat (fun x => if lab x then 1 else 0) c (a_buf s); vnat (a_tot s); amat wt c (a_buf s);
       vnat (a_cur s)].
 Definition a_enc_out (_ : acfg) (o : aout) : val :=
   match o with AErr => verr "compute" | AScalar x => vq x | AVec l => vlistQ l end.
@@ -162,7 +135,8 @@ Definition run_wauroc := run_pool (wauroc V_code) (wauroc_codec V_code).
 (* @model wauroc_fixed run_wauroc_fixed *)
 Definition run_wauroc_fixed := run_pool (wauroc V_fixed) (wauroc_codec V_fixed).
 
-(* ---- reference: the non-windowed BinaryAUROC on the last N samples ---- *)
+(* ---- reference: the AUROC DEFINITION (Curves.auroc_spec: weighted probability that a positive
+   outranks a negative, ties one half) of the last N samples, per task ---- *)
 (* what the window should hold *)
 Definition acontents (s : ast) : list col :=
   if Nat.leb (a_max s) (a_tot s) then skipn (a_cur s) (a_buf s) ++ firstn (a_cur s) (a_buf s)
@@ -170,6 +144,6 @@ Definition acontents (s : ast) : list col :=
 Definition auroc_ref (c : acfg) (samples : list col) : aout :=
   match samples, aT c with
   | [], _ => AErr
-  | _, S O => AScalar (auroc_row (nth 0 (rows_of c samples) []))
-  | _, _ => AVec (map auroc_row (rows_of c samples))
+  | _, S O => AScalar (auroc_spec (nth 0 (rows_of c samples) []))
+  | _, _ => AVec (map auroc_spec (rows_of c samples))
   end.
